@@ -231,4 +231,12 @@ var regressionInputs = []string{
 	"SELECT CAST(1 AS Tuple(\"\" UInt8))",
 	"CREATE TABLE t (a Int32) ENGINE = Memory ENGINE = Memory",
 	strings.Repeat(") ", 1001),
+	"CREATE TABLE t (a Int32 COMMENT 'x\ny') ENGINE = Memory",
+	"ALTER TABLE t DROP PARTITION ID 'a\nb'",
+	"OPTIMIZE TABLE t PARTITION ID 'x\ny' FINAL",
+	"SELECT ['a\nb', 'c']::Array(String)",
+	"SELECT CAST(x AS Array(T('a\nb' = 0, 'c' = 1)))",
+	"SELECT 1 ORDER BY x COLLATE 'a\nb'",
+	"INSERT INTO t FROM INFILE 'a\nb' COMPRESSION 'g\nz'",
+	"SELECT 1 INTO OUTFILE 'a\nb'",
 }
